@@ -29,7 +29,7 @@ ASSUMPTIONS = [
 ]
 COMPONENTS = {"real": ["pyxel.data_structure.Charge (pandas frame, numba binning)", "Geometry"], "stub": []}
 BUDGET = {"quick": {"n": 1600, "wall": 100, "determinism": 4}, "thorough": {"n": 1400000, "wall": 1500, "determinism": 12}}
-REQUIRED_REACH = ["op:add_array", "op:add_clusters", "op:add_dataframe", "op:read", "op:remove", "op:reset", "pos:border", "pos:edge", "pos:negative", "pos:beyond", "array_after_clusters", "clusters_after_array", "op:resize", "resize_after_mixed_use", "duplicated"]
+REQUIRED_REACH = ["op:add_array", "op:add_clusters", "op:add_dataframe", "op:read", "op:remove", "op:reset", "pos:border", "pos:edge", "pos:negative", "pos:beyond", "array_after_clusters", "clusters_after_array", "op:resize", "resize_after_mixed_use", "duplicated", "dataframe_columns_reordered", "reordered_dataframe_after_clusters"]
 
 POS = ("inside", "inside", "inside", "border", "edge", "negative", "beyond")
 
@@ -44,6 +44,15 @@ def gen_pos(rng, rows, cols, pv, ph, cls):
     if cls == "negative":
         return (-rng.choice([0.25, 1.0, 3.0]) * pv, (rng.randrange(cols) + 0.5) * ph) if rng.random() < 0.5 else ((rng.randrange(rows) + 0.5) * pv, -rng.choice([0.25, 2.0]) * ph)
     return ((rows + rng.choice([0.5, 3.0, 40.0])) * pv, 0.5 * ph) if rng.random() < 0.5 else (0.5 * pv, (cols + rng.choice([0.5, 7.0])) * ph)
+
+
+def _df_flavour(r):
+    """one draw decides: a frame with a missing column (refused), or a legal frame whose columns come in another order"""
+    if r < 0.15:
+        return {"bad_columns": True}
+    if r < 0.55:
+        return {"bad_columns": False, "col_order": "sorted" if r < 0.35 else "reversed"}
+    return {"bad_columns": False}
 
 
 def generate(rng, tier):
@@ -75,7 +84,7 @@ def generate(rng, tier):
         elif r < 0.58:
             cls = rng.choice(POS)
             y, x = gen_pos(rng, rows, cols, pv, ph, cls)
-            ops.append({"op": "add_dataframe", "clusters": [{"cls": cls, "y": y, "x": x, "n": rng.choice([1.0, 4.0])}], "bad_columns": rng.random() < 0.15})
+            ops.append({"op": "add_dataframe", "clusters": [{"cls": cls, "y": y, "x": x, "n": rng.choice([1.0, 4.0])}], **_df_flavour(rng.random())})
         elif r < 0.82:
             ops.append({"op": "read", "what": rng.choice(["array", "array", "frame", "xarray"])})
         elif r < 0.92:
@@ -228,6 +237,13 @@ def execute(scn):
                     except ValueError:
                         pass
                 else:
+                    if op.get("col_order"):
+                        # the same columns in another order are the same clusters (the container accepts any order of the column set)
+                        col_order = sorted(df.columns) if op["col_order"] == "sorted" else list(df.columns)[::-1]
+                        df = df[col_order]
+                        stats["dataframe_columns_reordered"] = 1
+                        if had_clusters:
+                            stats["reordered_dataframe_after_clusters"] = 1
                     ch.add_charge_dataframe(df)
                     m.add_clusters(op["clusters"])
                     had_clusters = True
